@@ -257,7 +257,11 @@ def run(ctx):
             if not uses:
                 continue
             c = callee_name(t) or t.get("callee") or "<indirect>"
-            ok = any(rx.fullmatch(c) for rx in neutral)
+            # a transformation is a function of the four analysed crates (std functions other than known decoders do not rewrite path text
+            # into climbing segments); every such function that consumes the checked path must be in the reviewed neutral table
+            local_fn = c in F.fns
+            decoder = bool(re.search(r"(decode|unescape|percent|from_utf8_lossy|canonicalize|normalize|expand)", c, re.I))
+            ok = any(rx.fullmatch(c) for rx in neutral) or (not local_fn and not decoder)
             seen_callee[c] = ok
             r2b.instance({"fn": fn.def_, "callee": c, "line": t["span"]["line"]}, ok)
             if not ok:
